@@ -391,6 +391,16 @@ func runRep(dir string, sc repScenario, faults map[int]int) (*repResult, vsched.
 						e = tx.Commit()
 					}
 					err = e
+				case "bigtx":
+					// one transaction of 130 entries: more than the primary puts into one stream message
+					tx, e := pr.Eng.BeginTransaction(false)
+					if e == nil {
+						for i := 0; i < 130; i++ {
+							tx.Put([]byte(fmt.Sprintf("%s%03d", o.Key, i)), []byte(o.Val))
+						}
+						e = tx.Commit()
+					}
+					err = e
 				case "flush":
 					err = pr.Eng.FlushImMemTables()
 				}
